@@ -217,6 +217,7 @@ static Op gen_op(Rng &r, int id, int kind, const VecProfile &prof) {
   o.c = r.below(1000); o.d = r.below(1000);
   o.a = (unsigned)r.next(); o.b = (unsigned)r.next(); o.n = (unsigned)r.next();
   o.src = (int)r.below(SRC_NKINDS);
+  o.self = r.below(20) == 3 ? 1 : 0;  // only meaningful for copy / move assignment and swap
   if (prof.faultPermille && r.below(1000) < prof.faultPermille && !is_macro(kind) && kind != V_RELOCATE) {
     o.fkind = r.chance(2, 3) ? F_ELEM : F_ALLOC;
     o.fk = o.fkind == F_ALLOC ? (int)r.below(2) : (int)(r.below(3) ? r.below(3) : r.below(12));
@@ -767,6 +768,7 @@ struct Runner {
         return true;
       }
       case V_DRAIN:
+        if (sz > 300) io.variant -= io.variant % 3;  // the erase(begin()) loop is quadratic: keep it to small vectors (the per-run watchdog must never fire on correct code)
         return sz != 0;
       case V_APPEND_LOOP: {
         if (t.flavour == FL_FIXED) return false;
@@ -922,6 +924,11 @@ struct Runner {
       }
     }
     if (!is_binary(op.kind)) w = nullptr;
+    // v = v, v = std::move(v), v.swap(v): legal for std::vector (the moved-from-itself vector is valid but unspecified, the others
+    // change nothing).  With inline storage a self swap swaps every element with itself, as std::array::swap does; the element
+    // ledger therefore only counts self-move-assignments during that one operation.
+    bool selfOp = op.self && (op.kind == V_COPY_ASSIGN || op.kind == V_MOVE_ASSIGN || op.kind == V_SWAP);
+    if (selfOp) w = &s;
     G.begin_op(idx, op.kind, op.id, vec_op_name(op.kind));
     IOp io;
     int expectThrow = 0;
@@ -952,7 +959,7 @@ struct Runner {
     int cls = state_class(t, pre), wcls = w ? state_class(*w->type, wpre) : 0;
     {
       std::string so = std::string(vec_op_name(io.kind)) + "(" + state_class_name(cls);
-      if (w) so += std::string(",") + state_class_name(wcls);
+      if (w) so += selfOp ? std::string(",self") : std::string(",") + state_class_name(wcls);
       if (is_alias(io.kind) || io.kind == V_INSERT_N || io.kind == V_INSERT_RANGE) {
         so += io.pos == pre.size ? ",end" : ",mid";
         if (is_alias(io.kind)) so += io.srcIdx >= io.pos ? ",src>=pos" : ",src<pos";
@@ -983,14 +990,14 @@ struct Runner {
         default: break;
       }
     }
-    if ((io.kind == V_MOVE_ASSIGN || io.kind == V_CTOR_MOVE || io.kind == V_CTOR_FROM_VEC) && srcHeap && wpre.size) {
+    if ((io.kind == V_MOVE_ASSIGN || io.kind == V_CTOR_MOVE || io.kind == V_CTOR_FROM_VEC) && srcHeap && wpre.size && !selfOp) {
       watchTransfer = true;
       G.watchLo = (uintptr_t)wpre.data; G.watchHi = G.watchLo + wpre.size * w->type->elemSize;
     }
     // swap2 between two heap-backed vectors of the same allocator and size_type exchanges the buffers as well
     bool swap2Exchange = io.kind == V_SWAP2 && srcHeap && dstHeap && t.flavour != FL_FIXED && w->type->flavour != FL_FIXED &&
                          t.allocDomain == w->type->allocDomain && t.sizeTypeId == w->type->sizeTypeId && !expectThrow;
-    if ((io.kind == V_SWAP || swap2Exchange) && srcHeap && dstHeap && (pre.size || wpre.size)) {
+    if ((io.kind == V_SWAP || swap2Exchange) && srcHeap && dstHeap && (pre.size || wpre.size) && !selfOp) {
       // both buffers are handed over; watch the larger one
       watchTransfer = true;
       const VecObs &big = pre.size >= wpre.size ? pre : wpre;
@@ -1003,7 +1010,7 @@ struct Runner {
     // operations that add elements one by one (macro loops, single-pass input ranges) reallocate at intermediate sizes
     if (is_ctor(io.kind)) g_reallocExpect.sizes[0] = 0;  // a new object is built in the slot
     g_reallocExpect.slack = (is_macro(io.kind) || io.stream == SRC_INPUT) ? io.vals.size() : 0;
-    G.inVecOp = true;
+    G.inVecOp = !(selfOp && io.kind == V_SWAP);
     // ---- execute
     Result res, exp;
     if (io.kind == V_RELOCATE) {
@@ -1069,7 +1076,7 @@ struct Runner {
     // ---- model update
     if (!G.viol.set()) {
       if (res.outcome == OUT_RETURNED && !(expectThrow && lenientThrow) && !expectThrow) {
-        apply_model(io, s, w, exp);
+        if (!selfOp) apply_model(io, s, w, exp);  // self copy-assignment and self swap change nothing; a self move leaves a valid, unspecified vector (adopted below)
         modelApplied = true;
       } else if (res.outcome == OUT_RETURNED && expectThrow && lenientThrow) {
         modelApplied = false;  // state must be unchanged
@@ -1078,7 +1085,7 @@ struct Runner {
     // ---- an element life-cycle violation inside this call: does the visible result differ from std::vector as well?
     // (decides whether the container-behaviour property is implicated in addition to C02)
     if (G.viol.set() && G.viol.kind == VK_ELEM && G.viol.opIndex == idx && res.outcome == OUT_RETURNED && !expectThrow && io.kind != V_RELOCATE) {
-      apply_model(io, s, w, exp);
+      if (!selfOp) apply_model(io, s, w, exp);
       if (!soft_equal(s) || (w && !soft_equal(*w))) G.viol.props |= G.baseProps;
     }
     // ---- after an injected fault: strong / basic guarantee (C09)
@@ -1203,7 +1210,7 @@ struct Runner {
         switch (io.kind) {
           case V_RESERVE: if (io.count > t.N) s.mustInline = false; break;
           case V_SHRINK: if (t.flavour == FL_SMALL && s.model.size() <= t.N) s.mustInline = true; break;
-          case V_MOVE_ASSIGN: s.mustInline = flagS && flagW; if (w->type->flavour == FL_SMALL) w->mustInline = true; break;
+          case V_MOVE_ASSIGN: if (selfOp) break; s.mustInline = flagS && flagW; if (w->type->flavour == FL_SMALL) w->mustInline = true; break;
           case V_CTOR_MOVE: s.mustInline = flagW && t.flavour == FL_SMALL; if (w->type->flavour == FL_SMALL) w->mustInline = true; break;
           case V_CTOR_FROM_VEC: s.mustInline = false; break;
           case V_SWAP: s.mustInline = w->mustInline = flagS && flagW; break;
